@@ -440,7 +440,27 @@ def write_evidence(prop, tier, seed, runs, wall, budget, workers, nviol, known_s
     json.dump(ev, open(os.path.join(VERIF, "evidence", prop + suffix + ".json"), "w"), indent=1)
 
 
-EXPECTED_PROBES = {}
+EXPECTED_PROBES = {
+    "C01": ["fame-decided-at-distance-3", "fame-decided-at-distance-5", "coin-round-vote-exact-supermajority", "validator-set-change", "async-gossip", "synthetic-split-vote-template", "dagreplay-variant:delay"],
+    "C02": ["validator-set-change", "re-fast-forward", "async-gossip", "late-request-executed"],
+    "C03": ["dagreplay-variant:order", "dagreplay-variant:delay", "dagreplay-variant:subdag", "dagreplay-variant:store", "dagreplay-variant:smallbadger", "dagreplay-variant:batch", "synthetic-dag"],
+    "C04": ["c04-order-checked"],
+    "C05": ["submit-from-commit-callback", "async-gossip", "node-killed"],
+    "C06": ["c06-liveness-evaluated", "validator-set-change"],
+    "C07": ["c07-admitted", "c07-rejected"],
+    "C08": ["c08-input:raw-bytes", "c08-input:sync", "c08-input:eager", "c08-input:join", "c08-input:ff", "c08-input:syncresp", "c08-input:ffresp"],
+    "C09": ["c09-anchor-checked", "c09-hostile-signatures:malformed", "c09-hostile-signatures:other-body", "validator-set-change"],
+    "C10": ["c10-history-checked", "c10-quorum-round-checked", "c10-quorum-decided-round-checked", "validator-set-change"],
+    "C11": ["shadow-bootstrap", "restart-bootstrap", "crash-inside-insertion", "store-point"],
+    "C12": ["ff-refused", "ff-accepted"],
+    "C13": ["fastforward-ok", "re-fast-forward", "c13-ff-history-checked"],
+    "C14": ["ff-attempt:forged-validator-set"],
+    "C15": ["c15-wire-roundtrip", "c15-block-json", "c15-frame-json", "c15-db-events-reloaded"],
+    "C16": ["c16-ops-applied", "c16-reopens", "c16-restart-after-kill"],
+    "C17": ["c17-runtime-suspend", "auto-suspended", "c17-suspended-sync-checked"],
+    "C18": ["c18-block-checked", "c18-liar-among-famous-witnesses"],
+    "C20": ["c20-commit-checked", "c20-submit-checked", "c20-call-failed-with-error", "c20-block-delivered-more-than-once"],
+}
 
 
 def replay(path):
